@@ -26,12 +26,21 @@ main(int argc, char** argv)
             st.engine = argv[++i];
             continue;
         }
-        std::vector<VhTok> tape;
-        if (!fe::read_tape(argv[i], tape)) {
-            printf("REPLAY %s unreadable\n", argv[i]);
-            bad = 2;
-            continue;
+        std::vector<std::vector<VhTok>> seq;
+        if (!fe::read_seq(argv[i], seq)) { // not a sequence file: one tape
+            seq.clear();
+            std::vector<VhTok> one;
+            if (!fe::read_tape(argv[i], one)) {
+                printf("REPLAY %s unreadable\n", argv[i]);
+                bad = 2;
+                continue;
+            }
+            seq.push_back(one);
         }
+        for (size_t si = 0; si < seq.size(); ++si) {
+        std::vector<VhTok>& tape = seq[si];
+        if (seq.size() > 1 && trace)
+            printf("---- tape %zu of %zu of the sequence (same process) ----\n", si + 1, seq.size());
         if ((int)tape.size() > spec->max_len)
             tape.resize(spec->max_len);
         for (auto& t : tape) {
@@ -64,6 +73,7 @@ main(int argc, char** argv)
                 st.fail_tape = tape;
             }
         }
+        } // tapes of a sequence
     }
     if (stats)
         st.dump(true);
